@@ -4,9 +4,11 @@
       the SENDER DISCIPLINE MONITOR [mon_step]: the wire clauses of the
       invariant I_mux as a decision procedure over the global history of
       frames handed to the carrier (sender, frame) in the order of those
-      events.  Proof/Mux.v shows that every history the model (all repairs
-      on) can produce passes it; the harness applies it to the histories
-      recorded from the real multiplexers.
+      events.  It is derived by hand from those clauses (it is NOT proved that
+      every model history passes it; Props/C24.v checks it by vm_compute on
+      model runs); the harness applies it to the histories recorded from the
+      real multiplexers, where a rejection is reported as a correspondence
+      failure (bit 1), never as a violation of the property by itself.
    2. The checkers check_C23 / check_C24 / check_C25 applied to what the Go
       harness observed on two real multiplexers. *)
 From Coq Require Import List NArith Bool Arith.
